@@ -1,4 +1,5 @@
 import RsModel.Model.Stream
+import RsModel.Lemmas.ProvTree3
 /-!
 # C04 — mappings point to where the text really came from
 (leaf level: an OriginalSource maps every token to its own position; the composites are tied by correspondence)
@@ -47,5 +48,53 @@ theorem c04_original_announces (t name : Text) (o : Opts) :
   · split
     · simp only; split <;> rfl
     · rfl
+
+
+/-! ## provenance: where every byte is attributed (columns = true)
+
+`prov s` is computed from the tree alone: for every byte of `source()` the file it was copied from, that file's text and the
+byte's offset in it (`none` for raw text).  `GoodN r p` says that the resolved attribution `r` (file name, embedded content, line,
+column, name) is right for provenance `p`: raw text is unmapped; a byte copied from offset `k` of file `name` with text `t`
+resolves to that file with that content, to the byte's own original line, and to the column at which the potential token that
+contains the byte starts — never after the byte's own column, exactly its column when it starts a token — without name; the only
+exception is the line break of an empty line, which is unmapped. -/
+
+/-- OriginalSource leaf: every byte is attributed to its own line and to the start column of its potential token -/
+theorem c04_original_attr (t name : Text) (j : Nat) (hj : j < t.length) :
+    ((attrOf (streamOriginal t name ⟨true, false⟩).evs)[j]? = some none ∧ t[j]? = some NL ∧ (adv startPos (t.take j)).col = 0)
+    ∨ ∃ k len, k ≤ j ∧ j < k + len ∧ (k, len) ∈ tokOffs 0 (tokens t) ∧ j - k ≤ (adv startPos (t.take j)).col
+        ∧ (attrOf (streamOriginal t name ⟨true, false⟩).evs)[j]? = some (some ⟨0, (adv startPos (t.take j)).line, (adv startPos (t.take j)).col - (j - k), none⟩) :=
+  original_attr t name j hj
+
+/-- **C04, chunk stream**: for every tree of OriginalSource and raw leaves under ConcatSource (any nesting; one content per
+file name), the stream an outside caller obtains attributes every byte rightly for its provenance -/
+theorem c04_stream (cons : Text → Option Text) (s : Src) (hs : s.OrigTree) (hw : Src.WD cons true s) (σ : Store) :
+    AllGood (s.attr true σ) s.prov := Src.prov_stream cons s hs hw σ
+
+/-- **C04, through `map()`**: resolving the position of every byte of `source()` through the SourceMap `get_map` returns (= `map()`
+for OriginalSource and ConcatSource roots) — greatest segment at or before the position on its line, then the map's own
+`sources` / `sourcesContent` tables — is right for the byte's provenance.  Chain: codec round trip (C12) ∘ text-less = normal
+mode (C03 T3) ∘ true positions (C02) ∘ ConcatSource attribution (C06) ∘ OriginalSource leaf.
+PARTIAL: ReplaceSource and CachedSource nodes (in the property's quantifier) are decided by correspondence + oracle. -/
+theorem c04_map (cons : Text → Option Text) (s : Src) (hs : s.OrigTree) (hw : Src.WD cons true s) (final : Bool)
+    (hsmall : ∀ m ∈ chunkMs (s.stream ⟨true, true⟩ []).1.evs, m.small) (sm : SMap) (hm : (getMap s ⟨true, final⟩ []).1 = some sm) :
+    AllGood ((attrFrom (decode sm.mappings) startPos s.src).map (Option.map (resolveM sm))) s.prov :=
+  origTree_map cons s hs hw final hsmall sm hm
+
+/-- read per byte: the j-th lookup is right for the j-th provenance, and there are as many as bytes -/
+theorem c04_map_pointwise (cons : Text → Option Text) (s : Src) (hs : s.OrigTree) (hw : Src.WD cons true s) (final : Bool)
+    (hsmall : ∀ m ∈ chunkMs (s.stream ⟨true, true⟩ []).1.evs, m.small) (sm : SMap) (hm : (getMap s ⟨true, final⟩ []).1 = some sm) :
+    ∀ (j : Nat) r p, ((attrFrom (decode sm.mappings) startPos s.src).map (Option.map (resolveM sm)))[j]? = some r → s.prov[j]? = some p → GoodN r p :=
+  (allGood_index _ _ (origTree_map cons s hs hw final hsmall sm hm)).2
+
+/-- non-vacuity: two OriginalSources with different names around raw text are in the domain, and the provenance of byte 4 of
+`"x;\ny" ++ ";" ++ "z"` is raw text while byte 5 comes from offset 0 of `b` -/
+example : (Src.concat (.cons (.orig [120, 59, 10, 121] [97]) (.cons (.rawStr [59]) (.cons (.orig [122] [98]) .nil)))).OrigTree
+    ∧ (Src.concat (.cons (.orig [120, 59, 10, 121] [97]) (.cons (.rawStr [59]) (.cons (.orig [122] [98]) .nil)))).prov
+        = [some ([97], [120, 59, 10, 121], 0), some ([97], [120, 59, 10, 121], 1), some ([97], [120, 59, 10, 121], 2),
+           some ([97], [120, 59, 10, 121], 3), none, some ([98], [122], 0)] := by
+  constructor
+  · exact ⟨trivial, trivial, trivial, trivial⟩
+  · decide
 
 end Rs
